@@ -12,7 +12,7 @@
 (***************************************************************************)
 EXTENDS XQueryVM2, XCatalog, Json, CSV, IOUtils
 
-CONSTANTS MaxNodes, UseCat, CatIds, ElemNames, TextVals, HostAxes, PredAxes, Deviations
+CONSTANTS MaxNodes, UseCat, CatIds, ElemNames, TextVals, HostAxes, PredAxes, Parts, Deviations
 
 VARIABLES doc, grow, part, expr
 vars == <<doc, grow, part, expr>>
@@ -22,6 +22,10 @@ NoExpr == [t |-> "none"]
 R1(ax, nt) == Path(FALSE, <<Step(ax, nt, <<>>)>>)
 NumL(i) == NumLit(NumInt(i))
 PredPathsVM == {R1(ax, nt) : ax \in PredAxes, nt \in {NTAny, NTName("a")}}
+               \cup {Path(FALSE, <<Step("descendant", NTAny, <<>>), Step("descendant", NTName("a"), <<>>)>>),     \* descendant over descendant
+                     Path(FALSE, <<Step("child", NTAny, <<>>), Step("child", NTAny, <<NumL(1)>>)>>),               \* merge rewrite inside the predicate
+                     Path(FALSE, <<Step("child", NTAny, <<>>), Step("child", NTAny, <<NumL(2)>>)>>),
+                     Path(FALSE, <<Step("child", NTAny, <<>>), Step("child", NTName("a"), <<Call("not", <<R1("child", NTAny)>>)>>)>>)}
 BoolPreds ==
     PredPathsVM \cup {Call("not", <<pp>>) : pp \in PredPathsVM}
     \cup {Bin(op, pp, Lit("1")) : op \in {"=", "!="}, pp \in PredPathsVM}
@@ -57,7 +61,7 @@ AddNode ==
     /\ UNCHANGED <<grow, part, expr>>
 PickPart ==
     /\ part = 0 /\ expr = NoExpr /\ Len(doc) > 1
-    /\ \E p \in 1 .. Len(PoolSets) : part' = p
+    /\ \E p \in Parts : part' = p
     /\ UNCHANGED <<doc, grow, expr>>
 PickExpr ==
     /\ part > 0 /\ expr = NoExpr
